@@ -463,7 +463,7 @@ func (f *Filter) HashMatchAny(key [KeySize]byte, data [][]byte) (bool, error) {
 	b := bstream.NewBStreamReader(filterData)
 
 	var (
-		values    = make(map[uint64]struct{}, f.N())
+		values    = make(map[uint64]struct{}, f.sizeHint())
 		lastValue uint64
 	)
 
@@ -509,6 +509,15 @@ func (f *Filter) HashMatchAny(key [KeySize]byte, data [][]byte) (bool, error) {
 	}
 
 	return false, nil
+}
+
+// sizeHint bounds N by the number of values the filter bytes can encode.
+func (f *Filter) sizeHint() int {
+	max := uint64(len(f.filterData)) * 8 / (uint64(f.p) + 1)
+	if uint64(f.n) < max {
+		return int(f.n)
+	}
+	return int(max)
 }
 
 // readFullUint64 reads a value represented by the sum of a unary multiple of
